@@ -209,6 +209,11 @@ func streamC12(env *runEnv) {
 				{c12QueryKey, "rdpgw-query", "10.66.66.66:3389", now + 300, "C:HS256:Q"},
 				{"anotherquerykey-anotherquerykey-", "rdpgw-query", addrs[0], now + 300, "C:HS256:O"},
 				{c12QueryKey, "other-issuer", addrs[0], now + 300, "C:HS256:Q"},
+				{c12QueryKey, "rdpgw-query-staging", addrs[0], now + 300, "C:HS256:Q"},
+				{c12QueryKey, "rdpgw-query.evil.test", addrs[0], now + 300, "C:HS256:Q"},
+				{c12QueryKey, "rdpgw-quer", addrs[0], now + 300, "C:HS256:Q"},
+				{c12QueryKey, "RDPGW-QUERY", addrs[0], now + 300, "C:HS256:Q"},
+				{c12QueryKey, "rdpgw-query/", addrs[0], now + 300, "C:HS256:Q"},
 				{c12QueryKey, "rdpgw-query", addrs[0], now - 3600, "C:HS256:Q"},
 			} {
 				tok := queryToken([]byte(qt.key), qt.iss, qt.sub, qt.exp)
@@ -450,6 +455,24 @@ func c12Extras(env *runEnv, idp *fakeIdP, g *gwInstance, cf c12cfg, ci int, addr
 					v = "refused-from-the-issuing-address:" + r
 				}
 				emit("token-of-203.0.113.5-presented-through-"+strings.ReplaceAll(chain, " ", ""), v)
+			}
+			long := ""
+			for k := 1; k <= 9; k++ {
+				long += fmt.Sprintf(", 10.0.0.%d", k)
+			}
+			for _, chain := range []string{"203.0.113.5" + long, "203.0.113.5" + long + long} {
+				v := "exact"
+				if r := tunnelReplay(g, tok, server, port, chain); r != "0,0" {
+					v = "refused-from-the-issuing-address:" + r
+				}
+				emit(fmt.Sprintf("token-of-203.0.113.5-presented-through-a-chain-of-%d", strings.Count(chain, ",")+1), v)
+			}
+			for _, chain := range []string{"198.51.100.9" + long, "198.51.100.9" + long + long} {
+				v := "exact"
+				if r := tunnelReplay(g, tok, server, port, chain); strings.HasSuffix(r, ",0") {
+					v = "accepted-although-the-first-address-differs"
+				}
+				emit(fmt.Sprintf("token-of-203.0.113.5-presented-by-198.51.100.9-through-a-chain-of-%d", strings.Count(chain, ",")+1), v)
 			}
 			for _, chain := range []string{"10.1.2.3, 203.0.113.5", "192.168.0.9, 203.0.113.5, 10.0.0.1", "127.0.0.1, 203.0.113.5"} {
 				v := "exact"
